@@ -543,4 +543,250 @@ theorem advance_idle (s : St) (t : Nat) (h : NoTimerBefore s t) : ∀ fuel, adva
         · have : ¬ u ≤ t := by omega
           simp [hle, this]
 
+
+/-! ### One request on the wire at a time -/
+
+/-- Follow who is on the wire: a transmission belongs to the caller already on the wire or puts its caller there
+when nobody is; a result takes its caller off. `none` = two requests outstanding at once. -/
+def track : Option Nat → List Ev → Option (Option Nat)
+  | cur, [] => some cur
+  | cur, .tx k _ _ _ :: es =>
+    (match cur with
+     | none => track (some k) es
+     | some k' => if k = k' then track cur es else none)
+  | cur, .res k _ :: es =>
+    (match cur with
+     | none => track none es
+     | some k' => if k = k' then track none es else none)
+  | cur, .ack _ :: es => track cur es
+  | cur, .ind _ :: es => track cur es
+  | cur, .dreq :: es => track cur es
+  | cur, .dresp :: es => track cur es
+
+def evs (o : List Out) : List Ev := o.map (·.2)
+
+def holder (s : St) : Option Nat := s.act.map (·.r.k)
+
+theorem track_append (cur : Option Nat) (a b : List Ev) :
+    track cur (a ++ b) = (track cur a).bind fun c => track c b := by
+  induction a generalizing cur with
+  | nil => simp [track]
+  | cons e es ih =>
+    cases e <;> simp only [List.cons_append, track]
+    · cases cur with
+      | none => exact ih _
+      | some k' => rename_i k _ _ _; by_cases hk : k = k' <;> simp [hk, ih]
+    · exact ih _
+    · exact ih _
+    · cases cur with
+      | none => exact ih _
+      | some k' => rename_i k _; by_cases hk : k = k' <;> simp [hk, ih]
+    · exact ih _
+    · exact ih _
+
+theorem begin_track (s : St) (r : Req) (rest : List Req) :
+    track none (evs (begin s r rest).2) = some (holder (begin s r rest).1) := by
+  unfold begin; split <;> simp [evs, track, holder]
+
+theorem grantQ_track (q : List Req) : ∀ s : St,
+    track none (evs (grantQ s q).2) = some (holder (grantQ s q).1) := by
+  induction q with
+  | nil => intro s; simp [grantQ, evs, track, holder]
+  | cons r rest ih =>
+    intro s
+    unfold grantQ
+    split
+    · exact begin_track s r rest
+    · simp only [evs, List.map_cons, track]
+      exact ih s
+
+theorem finish_track (s : St) (a : Active) (res : Result) :
+    track (some a.r.k) (evs (finish s a res).2) = some (holder (finish s a res).1) := by
+  unfold finish
+  simp only [evs, List.map_cons, track, if_true]
+  exact grantQ_track _ _
+
+theorem consume_track (s : St) (a : Active) :
+    track (some a.r.k) (evs (consume s a).2) = some (holder (consume s a).1) := by
+  unfold consume
+  split
+  · split
+    · exact finish_track _ _ _
+    · simp [evs, track, holder]
+  · exact finish_track _ _ _
+  · simp [evs, track, holder]
+
+theorem acknowledged_track (s : St) (a : Active) :
+    track (some a.r.k) (evs (acknowledged s a).2) = some (holder (acknowledged s a).1) := by
+  unfold acknowledged
+  exact consume_track _ { a with stage := .ansWait (s.now + TMO) }
+
+theorem giveUp_track (s : St) (a : Active) :
+    track (some a.r.k) (evs (giveUp s a).2) = some (holder (giveUp s a).1) := by
+  unfold giveUp
+  simp only
+  split
+  · simp [evs, track, holder]
+  · exact finish_track _ { a with pend := a.pend.stop } _
+
+theorem retry_track (a : Active) : ∀ (fuel : Nat) (s : St) (n : Nat),
+    track (some a.r.k) (evs (retry s a n fuel).2) = some (holder (retry s a n fuel).1) := by
+  intro fuel
+  induction fuel with
+  | zero => intro s n; exact giveUp_track s a
+  | succ m ih =>
+    intro s n
+    unfold retry
+    split
+    · simp [evs, track, holder]
+    · exact ih s (n + 1)
+
+theorem ackFailed_track (s : St) (a : Active) (n : Nat) :
+    track (some a.r.k) (evs (ackFailed s a n).2) = some (holder (ackFailed s a n).1) := by
+  unfold ackFailed
+  split
+  · exact acknowledged_track s a
+  · exact retry_track a _ s n
+
+theorem fireAct_track (s : St) : track (holder s) (evs (fireAct s).2) = some (holder (fireAct s).1) := by
+  unfold fireAct
+  split
+  · rename_i a ha
+    have hh : holder s = some a.r.k := by simp [holder, ha]
+    rw [hh]
+    split
+    · exact ackFailed_track s a _
+    · exact finish_track s a _
+    · exact finish_track _ a _
+  · simp [evs, track]
+
+theorem holder_congr {s s1 : St} (h : s1.act = s.act) : holder s1 = holder s := by simp [holder, h]
+
+theorem advance_track : ∀ (fuel : Nat) (s : St) (t : Nat),
+    track (holder s) (evs (advance s t fuel).2) = some (holder (advance s t fuel).1) := by
+  intro fuel
+  induction fuel with
+  | zero => intro s t; simp [advance, evs, track, holder]
+  | succ n ih =>
+    intro s t
+    unfold advance
+    simp only
+    split
+    · rename_i d isAct _
+      split
+      · cases isAct
+        · simp only [Bool.false_eq_true, if_false, fireUser, List.nil_append]
+          have := ih { s with now := max s.now d, userDisc := none, up := false } t
+          exact this
+        · simp only [if_true, evs, List.map_append]
+          rw [track_append]
+          have h1 : track (holder s) (List.map (fun x => x.snd) (fireAct { s with now := max s.now d }).2)
+              = some (holder (fireAct { s with now := max s.now d }).1) := fireAct_track { s with now := max s.now d }
+          rw [h1]
+          exact ih _ t
+      · simp [evs, track, holder]
+    · simp [evs, track, holder]
+
+theorem stopActive_track (s : St) : track (holder s) (evs (stopActive s).2) = some (holder (stopActive s).1) := by
+  unfold stopActive
+  split
+  · simp [evs, track]
+  · rename_i a ha
+    have hh : holder s = some a.r.k := by simp [holder, ha]
+    rw [hh]
+    split
+    · exact consume_track s { a with pend := a.pend.stop }
+    · simp [evs, track, holder]
+
+theorem deliver_track (s : St) (f : Frame) : track (holder s) (evs (deliver s f).2) = some (holder (deliver s f).1) := by
+  unfold deliver
+  split
+  · simp [evs, track]
+  · simp [evs, track]
+  · split
+    · rename_i a ha
+      have hh : holder s = some a.r.k := by simp [holder, ha]
+      split
+      · simp only
+        split
+        · rw [hh]; exact consume_track s { a with pend := .filled f }
+        · simp [evs, track, holder, ha]
+      · simp [evs, track]
+    · simp [evs, track]
+
+theorem inject_track (s : St) (i : In) : track (holder s) (evs (inject s i).2) = some (holder (inject s i).1) := by
+  cases i with
+  | call t r =>
+    simp only [inject]
+    split
+    · rename_i hn; rw [show holder s = none by simp [holder, hn]]; exact grantQ_track _ s
+    · simp [evs, track, holder]
+  | ackIn t seq err chanOk =>
+    simp only [inject]
+    split
+    · rename_i a ha
+      have hh : holder s = some a.r.k := by simp [holder, ha]
+      split
+      · split
+        · rw [hh]; split
+          · exact ackFailed_track s a _
+          · exact acknowledged_track s a
+        · simp [evs, track]
+      · simp [evs, track]
+    · simp [evs, track]
+  | cemi t sseq f =>
+    simp only [inject]
+    split
+    · simp [evs, track]
+    · split
+      · split
+        · simp only [evs, List.map_cons, track]
+          have := deliver_track { s with sexp := (s.sexp + 1) % 256 } f
+          exact this
+        · split <;> simp [evs, track]
+      · exact deliver_track s f
+  | close t c =>
+    cases c with
+    | server =>
+      simp only [inject]
+      split
+      · simp only [evs, List.map_cons, track, connLost]
+        have := stopActive_track { s with chan := false, up := false }
+        exact this
+      · simp [evs, track]
+    | lost =>
+      simp only [inject]
+      split
+      · simp only [connLost]
+        have := stopActive_track { s with chan := false, up := false }
+        exact this
+      · simp [evs, track]
+    | user =>
+      simp only [inject, userClose]
+      split
+      · simp only [evs, List.map_cons, track]
+        have := stopActive_track { s with chan := false, userDisc := some (s.now + DTMO) }
+        exact this
+      · have := stopActive_track { s with chan := false, up := false }
+        exact this
+  | discResp t =>
+    simp only [inject, giveUpDone]
+    have hu := userDiscDone_act s
+    split
+    · rename_i a ha
+      have hh : holder s = some a.r.k := by simp [holder, ← hu, ha]
+      split
+      · rw [hh]; exact finish_track _ a _
+      · simp [evs, track, holder, hu]
+    · simp [evs, track, holder, hu]
+  | fin t => simp [inject, evs, track]
+
+theorem step_track (s : St) (i : In) : track (holder s) (evs (step s i).2) = some (holder (step s i).1) := by
+  simp only [step, step2, evs, List.map_append]
+  rw [track_append]
+  have h1 := advance_track (fuelFor s) s i.time
+  simp only [evs] at h1
+  rw [h1]
+  exact inject_track _ i
+
 end XknxVerif.DevMgmt
